@@ -58,6 +58,17 @@ BAD_PROGRAMS = [
     "x = 0\ny = Normal(0, 1)\nwhile y < 0:\n    y = Normal(y, 1)\n    x = x + 1\nend\n",   # non-finite guard
     "x = 0\nwhile true:\n    if x > 3:\n        x = 0\n    else:\n        x = x + 1\n    end\nend\n",  # condition on infinite variable
     "x = 1\nwhile true:\n    x = Categorical(1/2, 1/3)\nend\n",                   # parameters do not sum to 1
+    # refusals of later pipeline stages (a "graceful fallback" added to one of them must not leave anything behind)
+    "types\n    c : Finite(0, 1)\nend\nc = Bernoulli(1/2)\nx = 0\nif c == 1:\n    x = 1\nend\nwhile true:\n    x = x + 1\nend\n",   # condition in the initial part, declared types
+    "c = Bernoulli(1/2)\nx = 0\nif c == 1:\n    x = 1\nend\nwhile true:\n    x = x + c\nend\n",                    # condition in the initial part
+    "x = 0\nc = 0\nu = 0\nwhile true:\n    c = Bernoulli(1/2)\n    u = Normal(0, 1)\n    if c == 1:\n        u = Normal(1, 1)\n    end\n    x = Sin(u)\nend\n",   # function of a conditionally drawn variable
+    "x = 0\ny = 0\nwhile true:\n    y = Normal(0, 1)\n    x = Sin(y + 1)\nend\n",                                     # function of an expression
+    "x = 0\ny = 0\nwhile true:\n    y = Laplace(0, 1)\n    x = Exp(y)\nend\n",                                        # exponential moment does not exist
+    "x = 0\ny = 0\nwhile true:\n    y = Categorical(1/2, 1/2)\n    x = Sin(y)\nend\n",                                # no trigonometric moments for this law
+    "x = 0\nwhile true:\n    x = Normal(1)\nend\n",                                                                 # wrong number of parameters
+    "types\n    x : Foo(1)\nend\nx = 0\nwhile true:\n    x = 1 - x\nend\n",                                          # unknown type
+    "x = 0\ny = 0\nwhile true:\n    y = y + 1\n    if y > x:\n        x = x + 1\n    end\nend\n",                      # condition over unbounded variables
+    "x, y = 0\nwhile true:\n    x = x + 1\nend\n",                                                                  # malformed simultaneous assignment
 ]
 
 
@@ -357,6 +368,15 @@ def gen_case(seed, extra=None):
             s = _lib_functional(rng)
         elif r < 0.71:
             s = _lib_geometric(rng)
+            if rng.random() < 0.6:
+                # the same ratios a second time in this process: goals in another order, or attached to other variables
+                sessions.append(s)
+                s = copy.deepcopy(s)
+                if rng.random() < 0.5:
+                    s["goals"] = s["goals"][1:] + s["goals"][:1]
+                else:
+                    text = s["program"]["text"].replace("x", "#").replace("y", "x").replace("#", "y")
+                    s.update(pid="geo:" + hashlib.sha256(text.encode()).hexdigest()[:10], program={"text": text})
         elif r < 0.76:
             # a pair over the same draw: once inside a branch, once at top level
             d = rng.choice(BRANCH_DRAWS)
@@ -407,6 +427,12 @@ def gen_case(seed, extra=None):
             s2 = copy.deepcopy(base)
             s2.update(pid="sib:" + hashlib.sha256(text.encode()).hexdigest()[:10], program={"text": text})
             sessions.insert(side.randrange(len(sessions) + 1) if sessions[0]["kind"] != "cli" else side.randrange(1, len(sessions) + 1), s2)
+    if side.random() < 0.25:
+        # one more refused program somewhere in the world (refusals of every pipeline stage, BAD_PROGRAMS)
+        text = side.choice(BAD_PROGRAMS)
+        bad = {"kind": "lib", "pid": "bad:" + hashlib.sha256(text.encode()).hexdigest()[:8], "program": {"text": text},
+               "goals": [{"monom": "x", "kind": "raw"}], "options": {}, "api": side.choice(["raw", "common"])}
+        sessions.insert(side.randrange(1 if sessions[0]["kind"] == "cli" else 0, len(sessions) + 1), bad)
     # step lists
     from .sessions import make_session
     remaining = []
